@@ -69,6 +69,9 @@ fn main() {
 
     let mut r = Runner::new(prop, tier, seed, verif_dir.clone());
     r.known = load_known(&verif_dir);
+    if replay.is_none() {
+        r.regress = ppp_verif::engine::load_regress(&verif_dir, prop);
+    }
     r.only = only;
     if let Some(path) = &replay {
         let text = match std::fs::read(path) {
